@@ -154,6 +154,19 @@ Proof.
     generalize (dest + cnt). induction bs as [|b bs IHb]; intros p q R; cbn [store_bytes rets]; auto.
 Qed.
 
+Lemma wcstombs_loop2_writes (P : Z -> Prop) utf8 w n (k : Z -> option Z -> prog Z) : forall dest src len cnt, 0 <= cnt ->
+  (forall a, ext dest len a -> P a) -> (forall c' nx, 0 <= c' -> writes_in P (k c' nx)) ->
+  writes_in P (wcstombs_loop2 utf8 w n dest src len cnt k).
+Proof.
+  induction n as [|n IH]; intros dest src len cnt Hc HP Hk; cbn [wcstombs_loop2]; [apply Hk; exact Hc|].
+  cbn [writes_in]. intros wc. destruct (wc =? 0).
+  - destruct (len <=? cnt) eqn:E; [apply Hk; exact Hc|]. apply Z.leb_gt in E. cbn [writes_in]. split; [|apply Hk; exact Hc].
+    intros x Hx. apply HP. unfold ext. lia.
+  - destruct (wc_enc utf8 wc) as [bs|]; [|apply Hk; unfold SIZE_MAX; lia].
+    destruct (len <? cnt + Z.of_nat (length bs)) eqn:E; [apply Hk; exact Hc|]. apply Z.ltb_ge in E.
+    apply store_bytes_writes; [intros a Ha; apply HP; unfold ext in *; lia|]. apply IH; [lia|exact HP|exact Hk].
+Qed.
+
 Theorem wcstombs_s_writes c utf8 retvalp dest dmax src len destbos : 0 <= dmax -> 0 <= len ->
   conv_bos_ok 1 dmax len destbos ->
   writes_in (convP dest dmax retvalp 8) (wcstombs_s c utf8 retvalp dest dmax src len destbos).
@@ -161,34 +174,44 @@ Proof.
   intros H0 Hl Hb. unfold wcstombs_s. set (w := wchar_w c) in *.
   destruct (retvalp =? 0); [exact I|]. cbn [writes_in]. split; [intros x Hx; right; exact Hx|].
   assert (HR : range_in (convP dest dmax retvalp 8) retvalp 8) by (intros x Hx; right; exact Hx).
+  set (finish := fun l : Z =>
+          if (0 <? l) && (l <? dmax) then
+            (if dest =? 0 then Ret EOK
+             else if null_slack c then Fill (dest + l) (dmax - l) 0 (Ret EOK) else Store 1 (dest + l) 0 (Ret EOK))
+          else
+            let rc := if l <=? rmax_str c then ESNOSPC else EILSEQ in
+            if dest =? 0 then Ret rc else handle_error c 1 dest dmax rc ;;; Ret rc).
+  assert (Hfin : dest = 0 \/ 1 <= dmax -> forall l, writes_in (convP dest dmax retvalp 8) (finish l)).
+  { intros Hd l. unfold finish. destruct ((0 <? l) && (l <? dmax)) eqn:E.
+    - apply andb_prop in E. destruct E as [E1 E2]. apply Z.ltb_lt in E1. apply Z.ltb_lt in E2.
+      destruct (dest =? 0); [exact I|]. destruct (null_slack c); cbn [writes_in]; (split; [|exact I]); intros x Hx; left; unfold ext; lia.
+    - cbv zeta. destruct (dest =? 0) eqn:Ed; [exact I|]. apply Z.eqb_neq in Ed. destruct Hd as [Hd|Hd]; [contradiction|].
+      apply writes_in_bind; [|intros; exact I]. apply handle_error_writes; try lia. intros a Ha. left. revert Ha. apply ext_sub; lia. }
   assert (Body : dest = 0 \/ 1 <= dmax -> writes_in (convP dest dmax retvalp 8)
     (if src =? 0 then
        (if dest =? 0 then Ret tt else (if null_slack c then Fill dest dmax 0 (Ret tt) else Store 1 dest 0 (Ret tt))) ;;; fail_str ESNULLP
      else if dest =? src then fail_str ESOVRLP
      else
-       l <- wcstombs_m utf8 w dest src (if negb (dest =? 0) && (dmax <? len) then dmax else len) (rmax_str c + 1) ;;
-       Store 8 retvalp l (
-         if (0 <? l) && (l <? dmax) then
-           (if dest =? 0 then Ret EOK
-            else if null_slack c then Fill (dest + l) (dmax - l) 0 (Ret EOK) else Store 1 (dest + l) 0 (Ret EOK))
-         else
-           let rc := if l <=? rmax_str c then ESNOSPC else EILSEQ in
-           if dest =? 0 then Ret rc else handle_error c 1 dest dmax rc ;;; Ret rc))).
+       if negb (dest =? 0) && (dmax <? len) then
+         wcstombs_loop2 utf8 w (Z.to_nat (rmax_str c + 1)) dest src dmax 0 (fun cnt nxt =>
+           Store 8 retvalp cnt (finish (match nxt with
+                                         | Some cl => if (cnt <? dmax) && (cnt + cl <=? len) then dmax else cnt
+                                         | None => cnt
+                                         end)))
+       else
+         l <- wcstombs_m utf8 w dest src len (rmax_str c + 1) ;; Store 8 retvalp l (finish l))).
   { intros Hd. destruct (src =? 0).
     { apply writes_in_bind; [|intros; exact I]. destruct (dest =? 0) eqn:Ed; [exact I|]. apply Z.eqb_neq in Ed. destruct Hd as [Hd|Hd]; [contradiction|].
       destruct (null_slack c); cbn [writes_in]; (split; [|exact I]); intros x Hx; left; unfold ext; lia. }
     destruct (dest =? src); [exact I|].
-    eapply writes_in_bind_rets with (Q := fun r => 0 <= r).
-    - unfold wcstombs_m. apply wcstombs_loop_writes; [lia|]. intros Hne a Ha. left. revert Ha.
-      replace (dest =? 0) with false by (symmetry; apply Z.eqb_neq; exact Hne). cbn [negb andb].
-      apply ext_sub; [lia|]. destruct (dmax <? len) eqn:E; [|apply Z.ltb_ge in E]; lia.
-    - apply wcstombs_loop_rets. lia.
-    - intros l Hl0. cbn [writes_in]. split; [exact HR|].
-      destruct ((0 <? l) && (l <? dmax)) eqn:E.
-      + apply andb_prop in E. destruct E as [E1 E2]. apply Z.ltb_lt in E1. apply Z.ltb_lt in E2.
-        destruct (dest =? 0); [exact I|]. destruct (null_slack c); cbn [writes_in]; (split; [|exact I]); intros x Hx; left; unfold ext; lia.
-      + cbv zeta. destruct (dest =? 0) eqn:Ed; [exact I|]. apply Z.eqb_neq in Ed. destruct Hd as [Hd|Hd]; [contradiction|].
-        apply writes_in_bind; [|intros; exact I]. apply handle_error_writes; try lia. intros a Ha. left. revert Ha. apply ext_sub; lia. }
+    destruct (negb (dest =? 0) && (dmax <? len)) eqn:Ec.
+    - apply wcstombs_loop2_writes; [lia|intros a Ha; left; exact Ha|].
+      intros c' nx Hc'. cbn [writes_in]. split; [exact HR|]. apply Hfin. exact Hd.
+    - eapply writes_in_bind_rets with (Q := fun r => 0 <= r).
+      + unfold wcstombs_m. apply wcstombs_loop_writes; [lia|]. intros Hne a Ha. left. revert Ha.
+        apply ext_sub; [lia|]. replace (dest =? 0) with false in Ec by (symmetry; apply Z.eqb_neq; exact Hne). cbn [negb andb] in Ec. apply Z.ltb_ge in Ec. lia.
+      + apply wcstombs_loop_rets. lia.
+      + intros l Hl0. cbn [writes_in]. split; [exact HR|]. apply Hfin. exact Hd. }
   destruct (dest =? 0) eqn:Ed; [apply Body; left; apply Z.eqb_eq; exact Ed|].
   destruct (dmax =? 0) eqn:Em; [exact I|]. apply Z.eqb_neq in Em. assert (H1 : 1 <= dmax) by lia.
   destruct (destbos =? BOS_UNKNOWN) eqn:Eb.
